@@ -35,7 +35,7 @@ MANIFEST_ENTRY = {
                "Proofs/C13/LexMax*.v): every Identifier, Whitespace, Annotation, LineAnnotation and Number token of a successful lex "
                "consists of exactly the character class the lexer uses and the input character after it cannot continue it; the one "
                "place where a digits-like number stops before a character it could take - a period - is characterised exactly "
-               "(`..` follows, or the previous token's type blocks floats). Likewise (C13_symbol_maximal, C13_backtick_identifier_forms, C13_subexpression_text / _whitespace): a Symbol token is `:` plus identifier characters not starting with `:` and cannot be continued; the three backtick identifier forms have exactly their shapes; a Subexpression token consists only of ASCII whitespace, has the exact shape head / blanks / closing break character and two (three after a leading CR) line-break characters - it need not contain two line feeds (`\\f\\r`: C13_subexpression_two_line_feeds_refuted, a clarification, confirmed on the Rust lexer). Trusted: Coq kernel; the operator table translator tools/sync/tokens.py; extraction (ExtrOcamlBasic only); "
+               "(`..` follows, or the previous token's type blocks floats). Likewise (C13_symbol_maximal, C13_backtick_identifier_forms, C13_subexpression_text / _whitespace): a Symbol token is `:` plus identifier characters not starting with `:` and cannot be continued; the three backtick identifier forms have exactly their shapes; a Subexpression token consists only of ASCII whitespace, has the exact shape head / blanks / closing break character and two (three after a leading CR) line-break characters - it need not contain two line feeds (`\\f\\r`: C13_subexpression_two_line_feeds_refuted, a clarification, confirmed on the Rust lexer). Quoted literals (C13_char_list_shape, C13_byte_list_shape, C13_literal_one_token_iff): every CharList / ByteList token of a successful lex is exactly two quotes (the empty literal) or q^n x body q^n with n >= 1, n <> 2, x not a quote, every quote run inside body shorter than n and body not ending in a quote - the opening run is maximal and the literal ends at the FIRST run of n quotes after it; such a text is one literal token iff that run condition holds; the n = 2 reading and 'closing run maximal' are refuted by witnesses (C13_two_quote_literal_refuted). Trusted: Coq kernel; the operator table translator tools/sync/tokens.py; extraction (ExtrOcamlBasic only); "
                "the Rust harness bin lex, ocaml/lex_driver.ml and the Python oracle; char::is_numeric / is_alphanumeric on "
                "non-ASCII code points are parameters of the model (theorems hold for every classification; the harness "
                "reports the real classification per case). Five defects were repaired in /repo (fix: commits, see "
